@@ -111,7 +111,7 @@ fn render_layout(toks: &[Tok], enders: &[String], rng: &mut Rng, mode: u8) -> St
                 0 | 1 if may_join => "",
                 2 => "  ",
                 3 => "\t",
-                4 => " \r",
+                4 => ["\r", " \r", "\r "][rng.below(3)],
                 5 => " \\\n ",
                 6 if may_break => "\n",
                 7 if may_break => [" // cömment\n  ", " // ends with a backslash \\\n", " // \\\\\n\t", " //\n"][rng.below(4)],
@@ -180,6 +180,13 @@ pub fn c06(ctx: &Ctx) -> PropResult {
         }
         cases.push(Case::new(Kind::Lex, format!("{text}\n+ 1")).tag("newline-after-token").aux(kind.clone()));
         cases.push(Case::new(Kind::Lex, format!("x {text} // c\n y")).tag("newline-after-token").aux(kind));
+    }
+    // the converse clause inside brackets: a newline after an identifier, a literal or a closing bracket ends the
+    // statement there as well (so the program is rejected exactly like the one with an explicit `;`)
+    for (a, b) in [("x <- [1, 2", "]"), ("x <- (1 + y", ")"), ("f(1", ", 2)"), ("x <- l[1", "]"), ("x <- [[1]", ", 2]"), ("x <- (\"s\"", ")"), ("f(g(1)", ")")] {
+        let nl = format!("y <- 1\n{a}\n{b}\n");
+        let semi = format!("y <- 1\n{a};{b}\n");
+        cases.push(Case::new(Kind::Run, nl).tag("newline-ends-statement").aux(semi));
     }
     // behavioural form of the converse clause: a statement after a bare RETURN / BREAK / CONTINUE + newline is a
     // statement of its own (dead code), never an operand
@@ -457,6 +464,44 @@ fn bracket_balance(src: &str) -> bool {
 /// the documented keywords (upper-case spelling)
 pub const KEYWORDS_DOC: &[&str] = &["AND", "BREAK", "CONTINUE", "EACH", "ELSE", "EXPORT", "FALSE", "FOR", "FROM", "IF", "IMPORT", "IN", "MOD", "NOT", "NULL", "OR", "PROCEDURE", "REPEAT", "RETURN", "TIMES", "TRUE", "UNTIL"];
 
+/// replace the identifier `from` by `to` everywhere outside string literals and comments
+pub fn rename_word(src: &str, from: &str, to: &str) -> String {
+    let chars: Vec<char> = src.chars().collect();
+    let mut out = String::with_capacity(src.len());
+    let mut i = 0;
+    while i < chars.len() {
+        let c = chars[i];
+        if c == '"' {
+            out.push(c);
+            i += 1;
+            while i < chars.len() {
+                out.push(chars[i]);
+                if chars[i] == '\\' && i + 1 < chars.len() {
+                    out.push(chars[i + 1]);
+                    i += 2;
+                    continue;
+                }
+                if chars[i] == '"' {
+                    i += 1;
+                    break;
+                }
+                i += 1;
+            }
+        } else if c.is_alphanumeric() || c == '_' {
+            let st = i;
+            while i < chars.len() && (chars[i].is_alphanumeric() || chars[i] == '_') {
+                i += 1;
+            }
+            let w: String = chars[st..i].iter().collect();
+            out.push_str(if w == from { to } else { &w });
+        } else {
+            out.push(c);
+            i += 1;
+        }
+    }
+    out
+}
+
 /// lower-case the keywords of a program text (all of them, or each with probability 1/2), leaving string
 /// literals, comments and identifiers alone
 pub fn recase_keywords(src: &str, rng: &mut Rng, all: bool) -> String {
@@ -515,6 +560,14 @@ pub fn c09(ctx: &Ctx) -> PropResult {
         let p = d.program();
         valid.push(p.clone());
         cases.push(Case::new(Kind::Parse, p).tag("derivation").aux("accept".into()));
+    }
+    // identifiers are any words that are not keywords as written: names that resemble keywords in another casing,
+    // names with non-ASCII letters, digits and underscores
+    let names = ["Times", "Each", "Mod", "In", "Or", "Null", "If", "Not", "True", "From", "tImes", "rEPEAT", "résumé", "x_", "x2_", "élan", "変数", "Break", "Import", "Export", "Until", "For"];
+    for (i, p) in valid.iter().enumerate().take(if ctx.quick() { 1_200 } else { 30_000 }) {
+        let name = names[i % names.len()];
+        let renamed = rename_word(p, "x", name);
+        cases.push(Case::new(Kind::Parse, renamed).tag("derivation-identifiers").aux("accept".into()));
     }
     // every keyword may be written in lower case: the derivations again with all / some keywords lower-cased
     for (i, p) in valid.iter().enumerate().take(if ctx.quick() { 1_500 } else { 30_000 }) {
@@ -721,6 +774,23 @@ pub fn c11(ctx: &Ctx) -> PropResult {
             cases.push(Case::new(Kind::Parse, crlf).tag("front-end-error-labels"));
         }
     }
+    // native argument errors in calls laid out over several lines: the label is the offending argument, wherever it stands
+    for (call, label) in [
+        ("INSERT(lst,\n      99, 0)", "99"),
+        ("INSERT(lst, 99,\n 0)", " 99"),
+        ("REMOVE(lst,\n\t0)", "0"),
+        ("REMOVE(\n  lst\n  ,\n  77\n)", "77"),
+        ("APPEND(\n1,\n2)", "1"),
+        ("INSERT(lst,\n\n\n\"x\", 0)", "\"x\""),
+        ("one(1,\n 2)", "1,\n 2"),
+    ] {
+        for ni in [0usize, 1, 6] {
+            for tail in ["\n", "", "\nDISPLAY(\"after\")\n"] {
+                let src = format!("{}lst <- [1, 2, 3]\nPROCEDURE one(p) {{\n RETURN p\n}}\nDISPLAY(\"éarlier output\")\nDISPLAY({call}){tail}", noise[ni]);
+                cases.push(run_case(src.replace(&format!("DISPLAY({call}){tail}"), &format!("{call}{tail}")), "runtime-error").aux(label.to_string()));
+            }
+        }
+    }
     // every kind of lexical / syntactic error as the very last thing of the input (no final newline), after ASCII and
     // after multi-byte text
     for last in ["\\", "!", "=", "\"open", "\"bad \\q", "\"bad \\", "#", "é", "😀", "(", "[", "{", "x <- ", "x <- 1 +", "IF (", "f(1,", "REPEAT", "NOT", "x[", "PROCEDURE", "\"a\\"] {
@@ -866,6 +936,21 @@ pub fn run_binary(args: &[&str], stdin: Option<&[u8]>, cwd: &std::path::Path) ->
         }
     }
     let out = child.wait_with_output().unwrap();
+    BinRun { code: out.status.code(), stdout: out.stdout, stderr: out.stderr }
+}
+
+/// the same with file descriptor 0 closed in the child (not an empty pipe: no standard input at all)
+pub fn run_binary_stdin_closed(args: &[&str], cwd: &std::path::Path) -> BinRun {
+    use std::os::unix::process::CommandExt;
+    let mut cmd = Command::new(BINARY);
+    cmd.args(args).current_dir(cwd).stdout(Stdio::piped()).stderr(Stdio::piped()).env("NO_COLOR", "1");
+    unsafe {
+        cmd.pre_exec(|| {
+            libc::close(0);
+            Ok(())
+        });
+    }
+    let out = cmd.spawn().expect("cannot run the aplang binary").wait_with_output().unwrap();
     BinRun { code: out.status.code(), stdout: out.stdout, stderr: out.stderr }
 }
 
